@@ -658,14 +658,14 @@ def nested_comp_space():
                 inner = _comp(ki, 'x', 'for x in t')
                 inner2 = _comp(ki, 'x', 'for (x, w) in t')
                 shapes = {
-                    'elt-after': _comp(ko, '(%s, x)' % inner, 'for t in y'),
-                    'elt-before': _comp(ko, '(x, %s)' % inner, 'for t in y'),
+                    'elt-after': _comp(ko, 'tr(%s, x)' % inner, 'for t in y'),
+                    'elt-before': _comp(ko, 'tr(x, %s)' % inner, 'for t in y'),
                     'cond-after': _comp(ko, 't', 'for t in y if tr(%s) if x' % inner),
                     'cond-before': _comp(ko, 't', 'for t in y if x if tr(%s)' % inner),
                     'iter-after': _comp(ko, 't', 'for t in y for u in tr(%s) for v in x' % inner),
                     'cond-then-elt': _comp(ko, 'x', 'for t in y if tr(%s)' % inner),
                     'iter-then-elt': _comp(ko, 'x', 'for t in y for u in tr(%s)' % inner),
-                    'tuple-target-elt-after': _comp(ko, '(%s, x)' % inner2, 'for t in y'),
+                    'tuple-target-elt-after': _comp(ko, 'tr(%s, x)' % inner2, 'for t in y'),
                 }
                 for sh in NESTED_SHAPES:
                     out.append(([role, ko, ki, sh], _nested_function(role, 'tr(%s)' % shapes[sh])))
@@ -674,12 +674,12 @@ def nested_comp_space():
             for j, km in enumerate(COMP_KINDS):
                 ki = COMP_KINDS[(i + 2 * j + 1) % 4]
                 inner = _comp(ki, 'x', 'for x in u')
-                mid_a = _comp(km, '(%s, u)' % inner, 'for u in t')
-                mid_b = _comp(km, '(%s, x)' % inner, 'for u in t')
+                mid_a = _comp(km, 'tr(%s, u)' % inner, 'for u in t')
+                mid_b = _comp(km, 'tr(%s, x)' % inner, 'for u in t')
                 out.append(([role, ko, km, ki, 'three:outer-elt-after'],
-                            _nested_function(role, 'tr(%s)' % _comp(ko, '(%s, x)' % mid_a, 'for t in y'))))
+                            _nested_function(role, 'tr(%s)' % _comp(ko, 'tr(%s, x)' % mid_a, 'for t in y'))))
                 out.append(([role, ko, km, ki, 'three:middle-elt-after'],
-                            _nested_function(role, 'tr(%s)' % _comp(ko, mid_b, 'for t in y'))))
+                            _nested_function(role, 'tr(%s)' % _comp(ko, 'tr(%s)' % mid_b, 'for t in y'))))
                 out.append(([role, ko, km, ki, 'three:outer-cond-after'],
                             _nested_function(role, 'tr(%s)' % _comp(ko, 't', 'for t in y if tr(%s) if x' % mid_a))))
     return out
